@@ -12,11 +12,11 @@ TLC (TraceSem.tla) accepts a recorded execution iff result and observation log e
 import semlib
 
 PID = "C02"
-AGG = ["ints", "bool", "str", "char", "rec", "enum", "opt", "list", "loops", "calls", "ret", "copymut", "float"]
+AGG = ["ints", "bool", "str", "char", "rec", "enum", "opt", "list", "loops", "calls", "ret", "copymut", "float", "generic"]
 
 
 def run(tier):
-    fam = [("aggregates", AGG, 3, 700, 6000, 2), ("shapes", ["ints", "bool", "str", "rec", "enum", "opt", "list", "copymut"], 2, 500, 4000, 1)]
+    fam = [("aggregates", AGG, 3, 700, 6000, 2), ("shapes", ["ints", "bool", "str", "rec", "enum", "opt", "list", "copymut", "generic"], 2, 500, 4000, 1)]
     return semlib.run_sem_check(
         PID, tier, fam,
         rule=("cases = recorded native executions of seeded random programs over random record/enum declarations with "
